@@ -1,5 +1,5 @@
 (* correspondence glue for C18: one matrix cell = one real gRPC call against the in-process server *)
-From Coq Require Import NArith String List Bool.
+From Coq Require Export NArith String List Bool.
 From V Require Export Auth.Policy.
 Export ListNotations.
 Open Scope string_scope.
